@@ -1,6 +1,7 @@
 package props
 
 import (
+	"bufio"
 	"bytes"
 	"fmt"
 	"runtime"
@@ -429,8 +430,15 @@ func C14(r *vf.Run) {
 				ma.NoRdSet = true
 				A.load(s, stale, g, ma)
 				var cw *countWriter
+				var bw *bufio.Writer
 				kind := "writer"
-				if g.Bool() {
+				if g.Intn(3) == 0 {
+					// a Logger is any io.Writer: the standard buffered writer (any buffer size) is the usual one
+					cw = &countWriter{keep: true}
+					bw = bufio.NewWriterSize(cw, []int{16, 64, 100, 128, 200, 512, 4096, 65536}[g.Intn(8)])
+					A.s.Logger = bw
+					kind = "bufio"
+				} else if g.Bool() {
 					cw = &countWriter{keep: true}
 					A.s.Logger = cw
 				} else {
@@ -445,6 +453,14 @@ func C14(r *vf.Run) {
 				panA := vf.Try(func() { A.s.RunUntil(target, budget) })
 				ma.Limit = 0
 				A.s.CPU.OnPC = nil
+				if bw != nil {
+					_ = bw.Flush()
+					all := strings.Join(cw.lines, "")
+					cw.lines = strings.SplitAfter(all, "\n")
+					if n := len(cw.lines); n > 0 && cw.lines[n-1] == "" {
+						cw.lines = cw.lines[:n-1]
+					}
+				}
 				if panA != nil {
 					r.Fail("logged-run-panics", fmt.Sprintf("RunUntil with a Logger panicked (or did not end): %v", panA), det())
 					continue
@@ -762,7 +778,7 @@ func C14(r *vf.Run) {
 		for op := 0; op < 256; op++ {
 			r.Require(fmt.Sprintf("line:op%02x:e0:mx0%s", op, map[bool]string{true: ":backward", false: ""}[ref.Table[op].Mode == ref.Rel8]))
 		}
-		for _, c := range []string{"twin:writer", "twin:reserver", "twin:cpualt", "twin:ended-at-target-with-interrupt-pending", "twin:with-callbacks-or-interrupts", "real:rom", "real:wram", "real:wram-low-mirror", "real:sram", "real:register-window", "line:opd0:e0:mx3:forward", "line:op80:e1:mx3:backward"} {
+		for _, c := range []string{"twin:writer", "twin:reserver", "twin:bufio", "twin:cpualt", "twin:ended-at-target-with-interrupt-pending", "twin:with-callbacks-or-interrupts", "real:rom", "real:wram", "real:wram-low-mirror", "real:sram", "real:register-window", "line:opd0:e0:mx3:forward", "line:op80:e1:mx3:backward"} {
 			r.Require(c)
 		}
 	}
